@@ -388,6 +388,82 @@ def gen_trans(rng, kind, i):
             'to_det': f}
 
 
+IDENT = [[1.0, 0.0, 0.0], [0.0, 1.0, 0.0], [0.0, 0.0, 1.0]]
+SIZE_CLASSES = {'small': (3e-4, 3e-3), 'medium': (3e-3, 3e-2), 'large': (3e-2, 3e-1)}      # radius in metres
+DET_MODES = ['near', 'mixed', 'far']
+# detectors: 'near' = 1.5..100 sample extents from the centre of the sample (extent = sqrt(r^2 + (h/2)^2), the
+# largest distance of a point of the solid from its centre), 'far' = 100..1e5 extents
+
+
+def rounding_tol(D, r, h):
+    """relative tolerance for comparing the transmission of a set-up that sits D away from the coordinate origin
+    with a translated copy: positions carry absolute errors of a few ulp(D), i.e. 2e-16 D / min(r, h) relative
+    to the solid; 1e-13 D / min(r, h) leaves a factor 450 for the Lipschitz constant of the path lengths"""
+    return 1e-9 + 1e-13 * D / min(r, h)
+
+
+def gen_trans_displaced(rng, kind, i, n_det=4):
+    """sample, beam and detectors 1 .. 1e3 m away from the coordinate origin (positions given relative to a
+    source or a moderator, say), detectors near the sample, far from it, or both; variants: the same set-up
+    translated back to the origin (pure translation: the placed rule is the same, agreement to rounding) and
+    rotated + translated to another place (agreement to the accuracy of the quadrature)"""
+    a = SPECIAL_AXES[(i // 4) % len(SPECIAL_AXES)][1] if i % 4 == 3 else unitvec(rng)
+    if i % 2 == 1:
+        a = [a[0], a[1], -abs(a[2])]
+    unit = rng.choice(['mm', 'm'])
+    u_m = 1e-3 if unit == 'mm' else 1.0                       # metres per unit of the cylinder
+    size = list(SIZE_CLASSES)[i % 3]
+    detmode = DET_MODES[(i + i // 3) % 3]                      # every (size, detector mode) pair within 9 consecutive cases
+    r = loguniform(rng, *SIZE_CLASSES[size]) / u_m
+    h = r * loguniform(rng, 0.2, 5.0)
+    D = loguniform(rng, 1.0, 1e3) / u_m
+    if rng.random() < 0.3:                                    # along a coordinate axis (z = beam line, typically)
+        dirn = [0.0, 0.0, 0.0]
+        dirn[rng.choice([0, 1, 2])] = rng.choice([1.0, -1.0])
+    else:
+        dirn = unitvec(rng)
+    shift = [D * x for x in dirn]
+    base0 = [rng.uniform(-2, 2) * r for _ in range(3)]
+    base = [b + t for b, t in zip(base0, shift)]
+    r_mm = r * u_m * 1e3
+    lam = sorted(loguniform(rng, 0.1, 20.0) for _ in range(3))
+    mu_max = rng.choice([0.05, 0.3, 1.0]) / r_mm
+    density = loguniform(rng, 1e-3, 1e3)
+    frac = rng.random()
+    sigma_s = frac * mu_max / density
+    sigma_a = (1 - frac) * mu_max / density / (lam[-1] / 1.7982)
+    det_unit = rng.choice(['m', 'mm'])
+    f = u_m / (1e-3 if det_unit == 'mm' else 1.0)
+    ext = math.sqrt(r * r + h * h / 4)
+    cen0 = [b + h / 2 * x for b, x in zip(base0, a)]
+    dets, det_cls, det_dist = [], [], []
+    for j in range(n_det):
+        near = detmode == 'near' or (detmode == 'mixed' and j % 2 == 0)
+        dist = (loguniform(rng, 1.5, 100.0) if near else loguniform(rng, 100.0, 1e5)) * ext
+        d = unitvec(rng)
+        dets.append([((c + dist * x) + t) * f for c, x, t in zip(cen0, d, shift)])
+        det_cls.append('near' if near else 'far')
+        det_dist.append(dist / ext)
+    if rng.random() < 0.5:                                    # rotated about (a neighbourhood of) the origin ...
+        M = rand_rotation(rng)
+        tr2 = [-sum(M[i2][j2] * shift[j2] for j2 in range(3)) for i2 in range(3)]
+    else:                                                     # ... or taken to another far-away place
+        M = rand_rotation(rng)
+        tr2 = [loguniform(rng, 1.0, 1e3) / u_m * x for x in unitvec(rng)]
+    return {'cyl': {'axis': [hx(x) for x in a], 'base': [hx(x) for x in base], 'r': hx(r), 'h': hx(h), 'unit': unit},
+            'kind': kind, 'sigma_s': hx(sigma_s), 'sigma_a': hx(sigma_a), 'density': hx(density),
+            'wavelengths': [hx(x) for x in lam], 'beam': [hx(x) for x in unitvec(rng)],
+            'dets': [[hx(x) for x in d] for d in dets], 'det_unit': det_unit,
+            'variants': [{'name': 'translate', 'M': [[hx(x) for x in row] for row in IDENT], 'tr': [hx(-x) for x in shift]},
+                         {'name': 'rigid', 'M': [[hx(x) for x in row] for row in M], 'tr': [hx(x) for x in tr2]},
+                         {'flip': True}],
+            'to_det': f,
+            'displaced': {'size': size, 'detectors': detmode, 'det_class': det_cls, 'det_distance_in_extents': det_dist,
+                          'displacement_m': D * u_m, 'displacement_in_extents': D / ext,
+                          'rounding_tol': {'translate': rounding_tol(D, r, h),
+                                           'rigid': rounding_tol(2 * D + math.sqrt(sum(x * x for x in tr2)), r, h)}}}
+
+
 # ------------------------------------------------------------------ the correspondence
 HEADER = ('From Coq Require Import QArith ZArith String List Uint63.\n'
           'From Verif.Sem Require Import Field QInst Corr.\nFrom Verif.C18 Require Import Model QData.\n'
@@ -413,6 +489,10 @@ def build_payload(rng, tier):
     for kind, n in (('cheap', 8), ('medium', 4), ('expensive', 2)):
         for i in range(n if tier == 'quick' else 6 * n):
             trans.append(gen_trans(rng, kind, i))
+    # the whole set-up far from the coordinate origin, detectors near the sample / far / both
+    for kind, n in (('cheap', 9), ('medium', 6), ('expensive', 3)):
+        for i in range(n if tier == 'quick' else 4 * n):
+            trans.append(gen_trans_displaced(rng, kind, i))
     # no attenuation at all: T must be 1
     for kind in KINDS:
         t = gen_trans(rng, kind, 1)
@@ -420,6 +500,11 @@ def build_payload(rng, tier):
         t['sigma_a'] = hx(0.0)
         t['variants'] = []
         trans.append(t)
+    t = gen_trans_displaced(rng, 'cheap', 0)
+    t['sigma_s'] = hx(0.0)
+    t['sigma_a'] = hx(0.0)
+    t['variants'] = []
+    trans.append(t)
     return {'mode': 'run', 'cyls': cyls, 'trans': trans}
 
 
@@ -493,7 +578,8 @@ def correspondence(ctx):
             add(f'(CQuad {ct} {ki} {kk} [' + '; '.join(f'({i}%Z, {v_term(pts[i])}, {d_term(ws[i])})' for i in idx) + '])',
                 dict(base_desc, what='quad-model', indices=len(idx)))
 
-    n_T = 0
+    n_T = n_disp = n_model = 0
+    disp_seen = []
     for t, r in zip(payload['trans'], res['trans']):
         kind = t['kind']
         ki = KINDS.index(kind)
@@ -506,6 +592,12 @@ def correspondence(ctx):
             ctx.violation('transmission:impl-raises', f'compute_transmission_map raised: {r["error"]}', {'case': tdesc})
             continue
         T = r['T']
+        disp = t.get('displaced')
+        if disp:
+            tdesc['displaced'] = disp
+            n_disp += 1
+            for cls_, dist_ in zip(disp['det_class'], disp['det_distance_in_extents']):
+                disp_seen.append((disp['displacement_in_extents'], dist_, cls_, disp['size']))
         acls = axis_class([fx(x) for x in t['cyl']['axis']])
         no_att = fx(t['sigma_s']) == 0.0 and fx(t['sigma_a']) == 0.0
         hr = fx(t['cyl']['h']) / fx(t['cyl']['r'])
@@ -527,17 +619,20 @@ def correspondence(ctx):
                     add(f'(CTprop "mono" {d_term(v)} {d_term(row[wi + 1])} {d_term(1e-13)})', dict(d, check='monotone'))
                 for vi, var in enumerate(r.get('variants', [])):
                     v2 = var['T'][di][wi]
-                    name = 'flip' if t['variants'][vi].get('flip') else 'rigid'
+                    name = 'flip' if t['variants'][vi].get('flip') else t['variants'][vi].get('name', 'rigid')
                     if v2 in ('nan', 'inf', '-inf'):
                         ctx.violation(f'transmission:{name}:non-finite', f'transmission of the moved scene is {v2}', {'case': d})
                         continue
-                    add(f'(CTprop "inv" {d_term(v)} {d_term(v2)} {d_term(INV_TOL[kind])})',
-                        dict(d, check=name, T_moved=fx(v2), moved_axis=[fx(x) for x in var['axis']],
-                             moved_axis_class=axis_class([fx(x) for x in var['axis']])))
-                # the model's transmission for the cheap rule (first detector, every wavelength)
-                if kind == 'cheap' and di == 0:
-                    add(f'(CTrans {cyl_term(t["cyl"])} {ki} {kk} {d_term(r["mu"][wi])} {d_term(t["to_det"])} '
-                        f'{v_term(t["beam"])} {v_term(t["dets"][di])} {d_term(v)})', dict(d, check='model', mu_per_unit=fx(r['mu'][wi])))
+                    add(f'(CTprop "inv" {d_term(v)} {d_term(v2)} {d_term(inv_tol(t, name, di))})',
+                        dict(d, check=name, T_moved=fx(v2), moved_axis=[fx(x) for x in var['axis']], moved_base=[fx(x) for x in var['base']],
+                             tolerance=inv_tol(t, name, di), moved_axis_class=axis_class([fx(x) for x in var['axis']])))
+            # the model's transmission (per-point outgoing directions) for the cheap rule: every wavelength of the first
+            # detector; for displaced set-ups of the first two detectors (mode 'mixed': one near, one far)
+            if kind == 'cheap' and di < (2 if disp else 1) and not any(v in ('nan', 'inf', '-inf') for v in row):
+                add(f'(CTransL {cyl_term(t["cyl"])} {ki} {kk} {d_term(t["to_det"])} {v_term(t["beam"])} {v_term(t["dets"][di])} ['
+                    + '; '.join(f'({d_term(m)}, {d_term(v)})' for m, v in zip(r['mu'], row)) + '])',
+                    dict(tdesc, det_index=di, axis_class=acls, check='model', mu_per_unit=[fx(m) for m in r['mu']], T=[fx(v) for v in row]))
+                n_model += len(row)
 
     # cheap cases first is irrelevant; keep shards balanced: heavy terms spread by interleaving
     order = sorted(range(len(terms)), key=lambda i: (i * 7919) % len(terms))
@@ -560,12 +655,47 @@ def correspondence(ctx):
                 'surface (tilted) or grazing a rim, NEARLY parallel to the axis (tilt 1e-9..1e-2, around r/h for needles), NEARLY perpendicular '
                 '(n.a 1e-9..1e-2, around h/r for wafers); 10% needles (h/r 1e4..1e6), 10% wafers; quadrature kinds cheap (all), medium (1/3 + special axes), expensive (1/10); '
                 'transmission: mu*r in {0.05,0.3,1}, lambda 0.1..20 A, detectors 3..3000 sizes away in random directions, units m/mm, '
-                'a random (possibly improper) orthogonal map + translation and the other-end description',
+                'a random (possibly improper) orthogonal map + translation and the other-end description; '
+                'DISPLACED set-ups: sample, beam and detectors 1..1e3 m from the coordinate origin (random direction or along a coordinate '
+                'axis), radius 0.3 mm..0.3 m (small / medium / large), 4 detectors near the sample (1.5..100 sample extents), far '
+                '(100..1e5 extents) or both in one call, all kinds; compared with the same set-up translated back to the origin '
+                '(tolerance 1e-9 + 1e-13 D/min(r,h): rounding only), with a rotated + translated copy (quadrature tolerance) and, for '
+                "'cheap', with the model (per-point outgoing directions) for a near and a far detector",
         'observed': {'rays': n_rays, 'ray_classes': cls_count, 'quadrature_points_tested': n_points, 'axis_classes': axis_count,
-                     'transmission_values': n_T, 'angle_formula': getattr(ctx, 'angle', None)},
+                     'transmission_values': n_T, 'transmission_values_vs_model': n_model, 'angle_formula': getattr(ctx, 'angle', None),
+                     'displaced_setups': n_disp,
+                     'displaced_detectors': {c: sum(1 for x in disp_seen if x[2] == c) for c in ('near', 'far')},
+                     'displaced_sizes': {c: sum(1 for x in disp_seen if x[3] == c) // 4 for c in SIZE_CLASSES},
+                     'displacement_in_extents_range': [min((x[0] for x in disp_seen), default=None), max((x[0] for x in disp_seen), default=None)],
+                     'near_detector_distance_in_extents_range': [min((x[1] for x in disp_seen if x[2] == 'near'), default=None),
+                                                                 max((x[1] for x in disp_seen if x[2] == 'near'), default=None)],
+                     'origin_distance_over_1e4_extents_with_near_detector': sum(1 for x in disp_seen if x[2] == 'near' and x[0] > 1e4)},
         'samples': [strip(d) for d in descs if d.get('what') == 'ray'][:3] + [strip(d) for d in descs if d.get('what') == 'transmission'][:1],
         'disagreements': len(fails),
     })
+
+
+def inv_tol(t, name, di):
+    """relative tolerance of an invariance comparison: a pure translation leaves the placed rule as it is (agreement to
+    rounding); a rotation / the other-end description re-orients the disk rule (accuracy of the quadrature kind; for
+    detectors within 100 sample extents the outgoing direction varies over the sample and the error of the rule is
+    larger: twice the far-detector tolerance)"""
+    disp = t.get('displaced')
+    if not disp:
+        return INV_TOL[t['kind']]
+    if name == 'translate':
+        return disp['rounding_tol']['translate']
+    return INV_TOL[t['kind']] * (2.0 if disp['det_class'][di] == 'near' else 1.0) + disp['rounding_tol']['rigid']
+
+
+def trans_class(d):
+    """input class of a transmission case, for violation keys"""
+    disp = d.get('displaced')
+    if not disp:
+        return ''
+    di = d.get('det_index')
+    cls = disp['det_class'][di] if di is not None and di < len(disp['det_class']) else disp['detectors']
+    return f':displaced-det-{cls}'
 
 
 def strip(d):
@@ -592,16 +722,28 @@ def violation_key(d, why):
         return f'quadrature:model:{d["kind"]}:axis-{d["axis_class"]}'
     if w == 'transmission':
         chk = d.get('check')
-        if chk in ('rigid', 'flip'):
-            return f'transmission:{chk}:{d["kind"]}:axis-{d["axis_class"]}'
-        return f'transmission:{chk}:{d["kind"]}'
+        if chk in ('rigid', 'flip', 'translate'):
+            return f'transmission:{chk}:{d["kind"]}:axis-{d["axis_class"]}{trans_class(d)}'
+        return f'transmission:{chk}:{d["kind"]}{trans_class(d)}'
     return 'corr:' + why
 
 
 # ------------------------------------------------------------------ search: the property statement on the implementation
 def search(ctx, broken):
-    """evaluate the property statement itself on the implementation: are the quadrature points inside the solid
-    (numerically, by the definition of `inside`), for axes over the whole sphere"""
+    """evaluate the property statement itself on the implementation (no model): quadrature points inside the solid,
+    path length = length of the part of the ray inside the solid, transmission in (0, 1], = 1 without attenuation,
+    decreasing in the attenuation, unchanged by rigid motions (translations: to rounding) and by the other-end
+    description -- over more set-ups than the correspondence (no Coq evaluation is needed here)"""
+    found = []
+    for fn in (search_quadrature, search_transmission, search_paths):
+        try:
+            found += fn(ctx, broken)
+        except Exception as ex:  # noqa: BLE001
+            ctx.note(f'search: {fn.__name__} did not finish: {type(ex).__name__}: {str(ex)[:200]}')
+    return found
+
+
+def search_quadrature(ctx, broken):
     rng = random.Random(ctx.seed + 1)
     found = []
     cyls = []
@@ -620,6 +762,141 @@ def search(ctx, broken):
             ctx.violation(key, f'Cylinder.quadrature("cheap") returns points outside the solid: axis {a}, r={fx(c["r"])}, h={fx(c["h"])}: '
                                f'{bad[0]}', {'cylinder': c, 'kind': 'cheap', 'worst': bad[0]})
             found.append(key)
+    return found
+
+
+def search_transmission(ctx, broken):
+    """range, T(no attenuation) = 1, monotone in the wavelength, invariance under translation / rigid motion / other end,
+    on set-ups at the origin and displaced by 1..1e3 m with detectors near and far (float comparison of observed values)"""
+    rng = random.Random(ctx.seed + 2)
+    thorough = ctx.tier != 'quick'
+    trans = []
+    for kind, n_disp, n_org in (('cheap', 36, 10), ('medium', 18, 5), ('expensive', 6, 2)):
+        for i in range(n_disp * (3 if thorough else 1)):
+            trans.append(gen_trans_displaced(rng, kind, i, n_det=6))
+        for i in range(n_org * (3 if thorough else 1)):
+            trans.append(gen_trans(rng, kind, i))
+        for gen in (gen_trans_displaced, gen_trans):
+            t = gen(rng, kind, 1)
+            t['sigma_s'] = t['sigma_a'] = hx(0.0)
+            trans.append(t)
+    res = ctx.run_impl('c18_impl.py', {'mode': 'run', 'cyls': [], 'trans': trans})
+    found = []
+
+    def report(chk, t, di, wi, text, extra):
+        d = {'what': 'transmission', 'kind': t['kind'], 'check': chk, 'det_index': di, 'wavelength_index': wi,
+             'axis_class': axis_class([fx(x) for x in t['cyl']['axis']]),
+             'cylinder': {k: ([fx(x) for x in v] if isinstance(v, list) else (fx(v) if k in 'rh' else v)) for k, v in t['cyl'].items()},
+             'wavelengths_angstrom': [fx(x) for x in t['wavelengths']], 'beam': [fx(x) for x in t['beam']],
+             'dets': [[fx(x) for x in dd] for dd in t['dets']], 'det_unit': t['det_unit'], 'payload': t}
+        if t.get('displaced'):
+            d['displaced'] = t['displaced']
+        d.update(extra)
+        key = violation_key(d, chk)
+        ctx.violation(key, f'{text}: {brief(d)}', {'case': d, 'reason': chk, 'found_by': 'search'})
+        found.append(key)
+
+    for t, r in zip(trans, res['trans']):
+        if 'error' in r:
+            ctx.violation('transmission:impl-raises', f'compute_transmission_map raised: {r["error"]}', {'case': {'what': 'transmission', 'payload': t}})
+            found.append('transmission:impl-raises')
+            continue
+        no_att = fx(t['sigma_s']) == 0.0 and fx(t['sigma_a']) == 0.0
+        for di, row in enumerate(r['T']):
+            vals = [float(v) if v in ('nan', 'inf', '-inf') else fx(v) for v in row]
+            for wi, v in enumerate(vals):
+                if not (0.0 < v <= 1.0 + 1e-12):
+                    report('range', t, di, wi, f'transmission {v!r} outside (0, 1]', {'T': v})
+                    continue
+                if no_att and abs(v - 1.0) > 1e-12:
+                    report('no-attenuation', t, di, wi, f'transmission without attenuation is {v!r}, not 1', {'T': v})
+                if wi + 1 < len(vals) and not vals[wi + 1] <= v * (1 + 1e-13):
+                    report('monotone', t, di, wi, f'transmission grows with the attenuation: {v!r} -> {vals[wi + 1]!r}', {'T': v, 'T_next': vals[wi + 1]})
+                for vi, var in enumerate(r.get('variants', [])):
+                    name = 'flip' if t['variants'][vi].get('flip') else t['variants'][vi].get('name', 'rigid')
+                    v2 = var['T'][di][wi]
+                    v2 = float(v2) if v2 in ('nan', 'inf', '-inf') else fx(v2)
+                    tol = inv_tol(t, name, di)
+                    if not abs(v - v2) <= tol * v:
+                        what = {'translate': 'translated together (no rotation)', 'rigid': 'moved together rigidly',
+                                'flip': 'described from its other end'}[name]
+                        report(name, t, di, wi, f'transmission changes from {v!r} to {v2!r} (relative {abs(v - v2) / v:.3g}, tolerance {tol:.3g}) when '
+                                                f'the set-up is {what}',
+                               {'T': v, 'T_moved': v2, 'tolerance': tol, 'moved_axis': [fx(x) for x in var['axis']],
+                                'moved_base': [fx(x) for x in var['base']]})
+    return found
+
+
+def ray_length_reference(c, s, n):
+    """length of {t >= 0 : s + t n inside the solid} from the definition of `inside` (unit axis a):
+    0 <= (p - b).a <= h and |(p - b) x a| <= r.  Coefficients exact (Fractions), one float square root.
+    Returns (length, conditioning) -- conditioning small = nearly tangent (the caller skips those)."""
+    a = [Fraction(x) for x in c['axis']]
+    b = [Fraction(x) for x in c['base']]
+    r, h = Fraction(c['r']), Fraction(c['h'])
+    s = [Fraction(x) for x in s]
+    n = [Fraction(x) for x in n]
+    d = [x - y for x, y in zip(s, b)]
+    lo, hi = Fraction(0), None                 # hi None = +inf
+    da, na = sum(x * y for x, y in zip(d, a)), sum(x * y for x, y in zip(n, a))
+    cond = 1.0
+    if na == 0:
+        if not (0 <= da <= h):
+            return 0.0, 1.0
+    else:
+        t0, t1 = sorted([-da / na, (h - da) / na])
+        lo, hi = max(lo, t0), t1
+    dxa, nxa = cross(d, a), cross(n, a)
+    A = sum(x * x for x in nxa)
+    B = sum(x * y for x, y in zip(dxa, nxa))
+    C = sum(x * x for x in dxa) - r * r
+    if A == 0:
+        if C > 0:
+            return 0.0, 1.0
+    else:
+        disc = B * B - A * C
+        if disc <= 0:
+            return 0.0, abs(float(disc)) / max(float(B * B), float(abs(A * C)), 1e-300)
+        cond = float(disc) / max(float(B * B), float(abs(A * C)), 1e-300)
+        q = math.sqrt(float(disc))
+        t0, t1 = (float(-B) - q) / float(A), (float(-B) + q) / float(A)
+        lo = max(float(lo), t0)
+        hi = t1 if hi is None else min(float(hi), t1)
+    if hi is None:
+        return math.inf, cond
+    return max(0.0, float(hi) - float(lo)), cond
+
+
+def search_paths(ctx, broken):
+    rng = random.Random(ctx.seed + 3)
+    cyls, gen = [], []
+    for i in range(60 if ctx.tier == 'quick' else 300):
+        c = gen_cylinder(rng, i)
+        c['rays'] = gen_rays(rng, c, 3)
+        gen.append(c)
+        cyls.append({'axis': [hx(x) for x in c['axis']], 'base': [hx(x) for x in c['base']], 'r': hx(c['r']), 'h': hx(c['h']),
+                     'unit': c['unit'], 'kinds': [], 'rays': [{'s': [hx(x) for x in ry['s']], 'n': [hx(x) for x in ry['n']]} for ry in c['rays']]})
+    res = ctx.run_impl('c18_impl.py', {'mode': 'run', 'cyls': cyls, 'trans': []})
+    found = []
+    for c, r in zip(gen, res['cyls']):
+        if 'error' in r or 'L' not in r:
+            continue
+        st = {'axis': [fx(x) for x in r['stored']['axis']], 'base': [fx(x) for x in r['stored']['base']],
+              'r': fx(r['stored']['r']), 'h': fx(r['stored']['h'])}
+        for ry, L in zip(c['rays'], r['L']):
+            Lf = float(L) if L in ('nan', 'inf', '-inf') else fx(L)
+            want, cond = ray_length_reference(st, ry['s'], ry['n'])
+            if cond < 1e-6 or not math.isfinite(want):
+                continue                               # nearly tangent: the correspondence brackets those
+            dist = math.sqrt(sum((x - y) ** 2 for x, y in zip(ry['s'], st['base'])))
+            tol = 1e-7 * max(st['r'], st['h']) + 1e-9 * dist
+            if not abs(Lf - want) <= tol:
+                key = f'path:{ry["cls"]}'
+                d = {'what': 'ray', 'class': ry['cls'], 'cylinder': dict(st, unit=c['unit'], axis_name=c['axis_name']),
+                     'start': ry['s'], 'direction': ry['n'], 'impl_length': Lf, 'length_inside_solid': want}
+                ctx.violation(key, f'beam_intersection returns {Lf!r}; the part of the ray inside the solid has length {want!r}: {brief(d)}',
+                              {'case': d, 'found_by': 'search'})
+                found.append(key)
     return found
 
 
